@@ -27,6 +27,23 @@ stage ECHOFLAGS(
     src comp   "fake",
 )
 
+struct FS(
+    bool flag,
+    int  n,
+)
+
+stage ECHOS(
+    in  FS   want,
+    out FS   s,
+    src comp "fake",
+)
+
+stage ECHOSS(
+    in  FS[] want,
+    out FS[] ss,
+    src comp "fake",
+)
+
 stage WORK(
     in  int  x,
     out int  y,
@@ -46,7 +63,7 @@ func c01NullCtlProgram(rng *rand.Rand, variant int) string {
 	var sb strings.Builder
 	sb.WriteString(c01NullCtlDecls)
 	flag := func() string { return []string{"null", "true", "false"}[rng.Intn(3)] }
-	switch variant % 3 {
+	switch variant % 5 {
 	case 0: // plain call, and a nested pipeline, controlled by a null output
 		sb.WriteString("pipeline INNER(\n    in  int x,\n    out int y,\n)\n{\n    call WORK(\n        x = self.x,\n    )\n\n    return (\n        y = WORK.y,\n    )\n}\n\n")
 		sb.WriteString("pipeline TOP(\n    out int r,\n)\n{\n    call ECHOFLAG as F(\n        want = null,\n    )\n\n    call ECHOFLAG as G(\n        want = " + flag() + ",\n    )\n\n")
@@ -63,6 +80,12 @@ func c01NullCtlProgram(rng *rand.Rand, variant int) string {
 		sb.WriteString("pipeline INNER(\n    in  int  x,\n    in  bool off,\n    out int  y,\n)\n{\n    call ECHOFLAG as F(\n        want = self.off,\n    )\n\n    call WORK(\n        x = self.x,\n    ) using (\n        disabled = F.flag,\n    )\n\n    return (\n        y = WORK.y,\n    )\n}\n\n")
 		sb.WriteString("pipeline TOP(\n    out int r,\n)\n{\n    map call INNER(\n        x   = split [" + strings.Join(xs, ", ") + "],\n        off = split [" + strings.Join(fl, ", ") + "],\n    )\n\n")
 		sb.WriteString("    call SINK(\n        a  = 0,\n        bs = INNER.y,\n    )\n\n    return (\n        r = SINK.r,\n    )\n}\n\ncall TOP()\n")
+	case 3: // the control is a MEMBER of a struct output that is null (audit pass 3, A3): den projects
+		// null to null = "not disabled" and runs the call, the code fails the fork
+		sb.WriteString("pipeline TOP(\n    out int r,\n)\n{\n    call ECHOS as S(\n        want = null,\n    )\n\n    call WORK(\n        x = 1,\n    ) using (\n        disabled = S.s.flag,\n    )\n\n    return (\n        r = WORK.y,\n    )\n}\n\ncall TOP()\n")
+	case 4: // … a member of a NULL ELEMENT of an array of structs, per fork of a mapped pipeline
+		sb.WriteString("pipeline INNER(\n    in  FS  s,\n    out int y,\n)\n{\n    call WORK(\n        x = 2,\n    ) using (\n        disabled = self.s.flag,\n    )\n\n    return (\n        y = WORK.y,\n    )\n}\n\n")
+		sb.WriteString("pipeline TOP(\n    out int r,\n)\n{\n    call ECHOSS as S(\n        want = [{flag: false, n: 1}, null, {flag: true, n: 3}],\n    )\n\n    map call INNER(\n        s = split S.ss,\n    )\n\n    call SINK(\n        a  = 0,\n        bs = INNER.y,\n    )\n\n    return (\n        r = SINK.r,\n    )\n}\n\ncall TOP()\n")
 	case 2: // control = output of a call that may itself be disabled: rejected by the compiler
 		sb.WriteString("pipeline TOP(\n    out int r,\n)\n{\n    call ECHOFLAG as F(\n        want = " + flag() + ",\n    )\n\n    call ECHOFLAG as A(\n        want = false,\n    ) using (\n        disabled = F.flag,\n    )\n\n")
 		sb.WriteString("    call WORK(\n        x = 1,\n    ) using (\n        disabled = A.flag,\n    )\n\n    return (\n        r = WORK.y,\n    )\n}\n\ncall TOP()\n")
@@ -71,9 +94,9 @@ func c01NullCtlProgram(rng *rand.Rand, variant int) string {
 }
 
 func c01NullCtlFamily(rng *rand.Rand, thorough bool) []c01Case {
-	n := 6
+	n := 10
 	if thorough {
-		n = 18
+		n = 20
 	}
 	var cases []c01Case
 	for i := 0; i < n; i++ {
